@@ -288,12 +288,14 @@ func c09Arbitrary(j *journal, ctx, s string, spec *c09Near, cnt *c09Counters) {
 				j.fail("print-differs/"+ctx, fmt.Sprintf("printed %q", printed), spec)
 			}
 		} else if !spec.Acc {
-			// accepted although the reference grammar rejects it: the
-			// statement only demands a fixed point of what is accepted
+			// accepted although the grammar (the specification's reference parser) rejects it: "any
+			// other input is rejected with an error".  No such input is accepted by the unchanged tree
+			// anywhere in the near-miss universe (counted in accepted_beyond_reference_grammar).
 			cnt.lenient++
 			if len(cnt.lenientSamples) < 5 {
 				cnt.lenientSamples = append(cnt.lenientSamples, s)
 			}
+			j.fail("accepts-ungrammatical/"+ctx, fmt.Sprintf("accepted and printed as %q", p.Signature()), spec)
 		}
 	}
 	c09FixedPoint(j, ctx, s, p)
